@@ -168,6 +168,12 @@ class Match(C.Stream):
         f += ["c:" + c for c in sorted(G.constructors_of(case["expr"]))]
         v = case["value"]
         f.append("v:" + ("None" if v is None else "bool" if isinstance(v, bool) else v[0]))
+        if G.has_nan(v):
+            f.append("nan-actual")
+        if G.has_nan(case["expr"]):
+            f.append("nan-expected")
+        if G.has_nan(v) and G.has_nan(case["expr"]):
+            f.append("nan-both-sides")
         ka, ke = G.key_feature([v]), G.key_feature(G.literals_of(case["expr"]))
         if ka:
             f.append("actual-dict-keys:" + ka)
